@@ -10,6 +10,8 @@
 //!       reopen               drop (the log's Drop forces) and open again                     → `ok` | `err <class>`
 //!       crash                the file as it is on disk now survives, the log object does not; open again
 //!       read K               everything the reader returns with read-ahead K                 → `[rec,rec,…]` | `err <class>`
+//!       image                the file itself, block by block (number, used bytes, first/last LSN, digest of the used
+//!                            data area), read by the harness with nothing but the layout                 → `{blk,blk,…}`
 //!   rec LSN T K PREV OID ROW UNDOHEX REDOHEX     byte image of one record + decode of that image
 use super::{Case, Engine, Tier};
 use crate::rng::Rng;
@@ -132,7 +134,7 @@ fn run_seq(ops: &[&str]) -> String {
                 let r = r.parse::<usize>().ok()?;
                 if u > 65535 || r > 65535 { None } else { Some(()) }
             })(),
-            ["force"] | ["truncate"] | ["reopen"] | ["crash"] => Some(()),
+            ["force"] | ["truncate"] | ["reopen"] | ["crash"] | ["image"] => Some(()),
             ["read", k] => k.parse::<usize>().ok().filter(|k| *k <= 64).map(|_| ()),
             _ => None,
         };
@@ -185,6 +187,7 @@ fn run_seq(ops: &[&str]) -> String {
                     Err(e) => outs.push(format!("err {}", err_class(&e))),
                 }
             }
+            ["image"] => outs.push(file_image(&path, w.stats().block_size)),
             ["read", k] => match w.read_all(k.parse().unwrap()) {
                 Ok(rs) => {
                     let items: Vec<String> = rs.iter().map(show_rec).collect();
@@ -202,6 +205,74 @@ fn run_seq(ops: &[&str]) -> String {
     }
     drop(wal);
     format!("{} ## {}", outs.join(" ; "), diag.join(" ; "))
+}
+
+fn u64_at(b: &[u8], off: usize) -> u64 {
+    u64::from_le_bytes(b[off..off + 8].try_into().unwrap())
+}
+
+fn opt_at(b: &[u8], off: usize) -> String {
+    if u64_at(b, off) == 0 { "-".into() } else { u64_at(b, off + 8).to_string() }
+}
+
+/// An independent look at the file, knowing only the layout: per block its number, used bytes, first/last LSN
+/// (`BlockHeader`: u64, Option<u64>, Option<u64>, u64) and a digest of the used part of the data area with the value
+/// bytes of `None` options zeroed; block zero also shows `total_blocks` (`WalHeader` behind the 64-byte block header).
+fn file_image(path: &std::path::Path, bs: usize) -> String {
+    let Ok(data) = std::fs::read(path) else { return "err io".into() };
+    if data.len() < bs {
+        return "{}".into();
+    }
+    let c = fw::constants(bs);
+    let mut items = Vec::new();
+    for (i, blk) in data.chunks(bs).enumerate() {
+        if blk.len() < bs {
+            items.push("partial".to_string());
+            break;
+        }
+        let hdr = if i == 0 { c.zero_header_size } else { c.block_header_size };
+        let used = u64_at(blk, 40) as usize;
+        if used > bs - hdr {
+            items.push(format!("{}:{}:bad", u64_at(blk, 0), used));
+            continue;
+        }
+        let mut area = blk[hdr..hdr + used].to_vec();
+        let mut off = 0usize;
+        let mut bad = false;
+        while off < used {
+            if off + c.record_header_size > used {
+                bad = true;
+                break;
+            }
+            let total = u32::from_le_bytes(area[off + 64..off + 68].try_into().unwrap()) as usize;
+            if total < c.record_header_size || off + total > used {
+                bad = true;
+                break;
+            }
+            for slot in [16usize, 32, 48] {
+                if u64_at(&area, off + slot) == 0 {
+                    for b in &mut area[off + slot + 8..off + slot + 16] {
+                        *b = 0;
+                    }
+                }
+            }
+            off += total;
+        }
+        let mut item = format!(
+            "{}:{}:{}:{}:{}",
+            u64_at(blk, 0),
+            used,
+            opt_at(blk, 8),
+            opt_at(blk, 24),
+            if bad { "bad".to_string() } else { format!("{:08x}", fnv(&[&area])) }
+        );
+        if i == 0 {
+            // WalHeader starts at 64: two Option<u64> (32 bytes), last_checkpoint_offset (8), total_blocks
+            item.push_str(&format!(":tb={}", u64_at(blk, 64 + 40)));
+        }
+        items.push(item);
+    }
+    format!("{{{}}}", items.join(","))
 }
 
 /// value bytes of a `None` option are not initialised by the code: zero them before comparing
@@ -520,6 +591,8 @@ mod generator {
                 }
                 if !every {
                     ops.push(format!("read {}", 1 + n % 3));
+                } else {
+                    ops.push("image".into());
                 }
                 let line = if ops.is_empty() { "seq".to_string() } else { format!("seq | {}", ops.join(" ; ")) };
                 cases.push(Case { line, tags: tags_of(&sim, &["exhaustive"]) });
@@ -580,7 +653,8 @@ mod generator {
                     sim.force();
                     ops.push("force".into());
                 }
-                70..=84 => {
+                70..=72 => ops.push("image".into()),
+                73..=84 => {
                     let k = if rng.chance(1, 40) { 0 } else { 1 + rng.below(6) };
                     if k == 0 {
                         base.push("read-ahead-0");
@@ -614,6 +688,7 @@ mod generator {
         sim.reopen();
         ops.push("reopen".into());
         ops.push(format!("read {}", 1 + rng.below(6)));
+        ops.push("image".into());
         Case { line: format!("seq | {}", ops.join(" ; ")), tags: tags_of(&sim, &base) }
     }
 
